@@ -19,9 +19,30 @@ def norm(path):
 
 
 class Facts:
-    def __init__(self, path, cfg="default"):
+    def __init__(self, path, cfg="default", text_aliases=None, enum_options=None):
+        """text_aliases: [(current def path, baseline def path)] of renamed types / constants (engine/normalise.py): every occurrence
+        of the current path in the fact file reads as the baseline path"""
         self.path = path
         self.cfg = cfg
+        self.text_aliases = list(text_aliases or [])
+        # enum_options: [(E, unit variant, data variant, payload type, [other types that have a variant of either name])] - a private
+        # enum `E { U, D(T) }` that took the place of an `Option<T>` (engine/normalise.py) reads as that Option
+        self.enum_options = list(enum_options or [])
+        eo = []
+        for E, U, D, T, clash in self.enum_options:
+            e = re.escape(E)
+            eo.append((E, U, D, clash,
+                       re.compile(r'"adt":"%s","var":"(%s|%s)"' % (e, re.escape(U), re.escape(D))),
+                       re.compile(r'("adt":")%s(","vars":\{)([^}]*)(\})' % e),
+                       re.compile(r'"%s::(%s|%s)"' % (e, re.escape(U), re.escape(D))),
+                       re.compile(r'"@(%s|%s)"' % (re.escape(U), re.escape(D))),
+                       re.compile(r"(?<![\w:])" + e + r"(?!\w)"),
+                       "std::option::Option<%s>" % T))
+        # one simultaneous substitution (a -> b and b -> c must not chain), longest path first
+        amap = dict(self.text_aliases)
+        arx = re.compile(r"(?<![\w:])(" + "|".join(re.escape(c) for c in sorted(amap, key=len, reverse=True)) + r")(?!\w)") if amap else None
+        # cheap pre-filter: a fragment that every aliased path contains
+        frags = sorted({c.rsplit("::", 1)[-1] if "{closure#" not in c else c[:c.index("::{closure#")].rsplit("::", 1)[-1] for c in amap})
         self._raw = {}       # key -> raw json line of fn record
         self._fn = {}        # key -> parsed
         self.keys_by_def = {}  # def path -> [keys]
@@ -32,6 +53,19 @@ class Facts:
         self.meta = {}
         with open(path, "r") as f:
             for line in f:
+                for E, U, D, clash, rx_agg, rx_dis, rx_sum, rx_proj, rx_ty, opt_ty in eo:
+                    if E not in line:
+                        continue
+                    vmap = {U: "None", D: "Some"}
+                    line = rx_agg.sub(lambda m_: '"adt":"std::option::Option","var":"%s"' % vmap[m_.group(1)], line)
+                    line = rx_dis.sub(lambda m_: m_.group(1) + "std::option::Option" + m_.group(2) +
+                                      re.sub(r'"(%s|%s)"' % (re.escape(U), re.escape(D)), lambda q: '"%s"' % vmap[q.group(1)], m_.group(3)) + m_.group(4), line)
+                    line = rx_sum.sub(lambda m_: '"std::option::Option::%s"' % vmap[m_.group(1)], line)
+                    if not any(c_ in line for c_ in clash):
+                        line = rx_proj.sub(lambda m_: '"@%s"' % vmap[m_.group(1)], line)
+                    line = rx_ty.sub(opt_ty, line)
+                if arx is not None and any(fr in line for fr in frags):
+                    line = arx.sub(lambda m_: amap[m_.group(1)], line)
                 m = _DEF_RE.match(line)
                 if m and m.group(1) == "fn":
                     d = json.loads('"' + m.group(2) + '"')
@@ -109,6 +143,14 @@ class Facts:
                     m = merged(ck, stack + (k,))
                     calls += [c for c in m["calls"] if c not in calls]
                     aggs += [a for a in m["aggs"] if a not in aggs]
+            # what a new closure written in this function does counts as done here (it is spelled out in place when the combinator
+            # that takes it is desugared, engine/inline.py)
+            if k not in self.new_fns:
+                for ck in self.new_fns:
+                    if ck.startswith(k + "::{closure#") and ck not in stack:
+                        m = merged(ck, stack + (k,))
+                        calls += [c for c in m["calls"] if c not in calls]
+                        aggs += [a for a in m["aggs"] if a not in aggs]
             out = dict(s)
             out["calls"] = calls
             out["aggs"] = aggs
@@ -148,6 +190,21 @@ class Facts:
                 hid.add(n)
                 if is_async:
                     hid.add(cor)
+        # new closures that were spelled out in the function they are written in
+        for n in sorted(self.new_fns):
+            m = re.search(r"::\{closure#\d+\}", n)
+            if not m:
+                continue
+            par = n[:m.start()]
+            if par in self.new_fns or par not in self._raw:
+                if par in hid:
+                    hid.add(n)
+                continue
+            f = self.fn(par)
+            done = (f.rec.get("inlined") or []) if f is not None else []
+            top = n[:re.search(r"^.*?::\{closure#\d+\}", n).end()]
+            if top in done:
+                hid.add(n)
         self._hidden = hid
         return hid
 
@@ -175,7 +232,13 @@ class Facts:
         """Keys whose def path matches the regex (search)."""
         rx = re.compile(pattern)
         h = self.hidden()
-        return [k for k in self._raw if k not in h and (rx.search(k) or rx.search(norm(k)))]
+        out = [k for k in self._raw if k not in h and (rx.search(k) or rx.search(norm(k)))]
+        # names of baseline functions that now live inside another function (engine/normalise.py `absorbed_fns`) are found under
+        # their old name unless the function that absorbed them is in the result anyway
+        for a, tgt in self._alias.items():
+            if a not in self._raw and tgt in self._raw and norm(a) != norm(tgt) and tgt not in out and a not in out and rx.search(a) and not any(self._alias.get(o) == tgt for o in out):
+                out.append(a)
+        return out
 
     def callers(self):
         """callee (normalised def or res) -> set of caller keys"""
